@@ -48,7 +48,17 @@ def gen_close_window(rng) -> dict:
              "fates": [{"kind": "accept", "latency": 0.0}, {"kind": "accept", "latency": rng.choice([0.0, 0.125, 1.0])}]}
     t_f = G.dyadic(rng, 1.0, 3.0)
     msgs = sendq.distinct_messages(rng, gen, 3)
-    tl = [{"at": 0.0, "op": "user.open"}, {"at": t_f, "op": rng.choice(["net.fin", "net.fin", "net.rst"])}]
+    # the link dies by a peer FIN, or by a reset / timeout / unreachable-host error reported on the read side (the error a
+    # later drain() re-raises is then the transport's own, not the generic "connection lost")
+    tl = [{"at": 0.0, "op": "user.open"}, {"at": t_f, "op": rng.choice(["net.fin", "net.rst", "net.rst"]), "err": rng.choice(["ECONNRESET", "ETIMEDOUT", "EHOSTUNREACH", "ENETUNREACH"])}]
+    if rng.random() < 0.4:
+        # the read loop is busy when the link dies: a frame arrived just before and its subscriber takes a few loop turns, so
+        # the socket keeps calling itself connected while the transport already carries the error
+        from harness import framegen
+
+        tl.append({"at": 0.0, "op": "user.sock_subscribe", "name": "slow", "sub_yields": rng.choice([4, 8])})
+        tl.append({"at": t_f, "op": "console.raw", "hex": framegen.frame(rng, gen, "version")[0].hex()})
+        tl.sort(key=lambda s: (s["at"], 0 if s["op"] == "console.raw" else 1))
     n = rng.choice([1, 1, 2])
     for i in range(n):
         tl.append({"at": t_f + lat, "op": "user.send", "msg": msgs[i], "policy": rng.choice(["idem", "idem", {"retries": 1, "lifetime": 30.0}]), "yields": rng.choice([0, 1, 2, 3, 4])})
@@ -108,7 +118,7 @@ def generate(rng, index: int, tier: str) -> dict:
     expiry_anchors = [a + l for a, l in lifetimes]
     if single:
         # exactly one write error; the network then behaves and reconnects at once
-        tl.append({"at": t0 - G.EPS, "op": "net.fail_write", "nth": rng.choice([1, 2, 3]), "err": rng.choice(["EPIPE", "ECONNRESET", "ETIMEDOUT"])})
+        tl.append({"at": t0 - G.EPS, "op": "net.fail_write", "nth": rng.choice([1, 2, 3]), "err": rng.choice(["EPIPE", "ECONNRESET", "ETIMEDOUT", "EHOSTUNREACH"])})
         fates.append({"kind": "accept", "latency": rng.choice([0.0, 0.125, 1.0])})
     else:
         nf = rng.choice([1, 1, 2, 3, 4, 6])
@@ -223,6 +233,10 @@ def execute(sc: dict) -> dict:
     h = sendq.History(w)
     fault_times = [e[1] for e in w.trace.events if e[2] == "fault.fired"]
     for s in h.subs:
+        if s["exc"] not in (None, "NotOpenError", "QueueOverflowError") and not V:
+            # a transport error is the socket's to absorb (re-queue or drop according to the policy), not the caller's:
+            # send() documents the not-open and overflow errors only, and a command that left as an exception is lost
+            V.append(viol("C02.send_raised", {"sub": s["id"], "msg": s["desc"], "exc": s["exc"], "policy": s["policy"], "t": s["t_accept"]}, exc=s["exc"]))
         if s["exc"] is not None or s["t_accept"] is None:
             continue
         ta = s["t_accept"]
